@@ -6,12 +6,15 @@ import jsonschema
 
 pid, text, note = sys.argv[1:4]
 cat = sys.argv[4] if len(sys.argv) > 4 else "proof"
+technique = sys.argv[5] if len(sys.argv) > 5 else None
 m = json.load(open("MANIFEST.json"))
 chk = {"property_id": pid, "quick_cmd": f"./check {pid} --tier quick", "thorough_cmd": f"./check {pid} --tier thorough",
        "evidence_file": f"evidence/{pid}.json", "replay_cmd_template": f"./check {pid} --replay {{path}}", "engine": "pyvc",
        "level_claimed": {"category": cat, "text": text, "design_ref": f"DESIGN.md §4 {pid}"}, "level_note": note,
        "technique": "contract-based deductive verification (VCs from the real source via symbolic interpretation, "
                     "discharged by z3/cvc5 or by term identity)"}
+if technique:
+    chk["technique"] = technique
 m["checks"] = sorted([c for c in m["checks"] if c["property_id"] != pid] + [chk], key=lambda c: c["property_id"])
 m["not_applicable"] = [n for n in m.get("not_applicable", []) if n["property_id"] != pid]
 m["engines"][0]["serves_properties"] = sorted(c["property_id"] for c in m["checks"])
